@@ -245,7 +245,6 @@ namespace c16
       { Assembly::Common::StressDivergenceOperator<dim, nsc_sym> op; blocked_op<dim, nsc_sym>("STRESS" + std::to_string(nsc_sym), op, space, true); }
       { Assembly::Common::StressDivergenceOperator<dim, nsc_full> op; blocked_op<dim, nsc_full>("STRESS" + std::to_string(nsc_full), op, space, true); }
       { Assembly::Common::StrainRateTensorOperator<dim, nsc_sym> op; blocked_op<nsc_sym, dim>("STRAIN" + std::to_string(nsc_sym), op, space, true); }
-      if(dim == 2)
       { Assembly::Common::StrainRateTensorOperator<dim, nsc_full> op; blocked_op<nsc_full, dim>("STRAIN" + std::to_string(nsc_full), op, space, true); }
       // ---- functionals: scalar f = v-polynomial, vector f = (u, v, u+v)
       {
@@ -299,6 +298,16 @@ namespace c16
   void run_ops(Cur& c, std::ostream& o)
   {
     OpsConfig g = read_ops_config<Shape_::dimension>(c);
+    {
+      // warm-up request of the same template instantiations (discarded): other rule, other coefficients
+      OpsConfig w = g;
+      w.rule = warm_rule(g.rule); w.alpha = g.alpha + Q(1);
+      for(auto& x : w.cu) x = x + Q(1);
+      for(auto& x : w.cv) x = x * Q(2) - Q(1);
+      std::ostringstream sink;
+      Ops<Shape_> opsw(w, sink);
+      opsw.run_all();
+    }
     Ops<Shape_> ops(g, o);
     ops.run_all();
   }
